@@ -189,6 +189,11 @@ type c09Env struct {
 	// limits exposed an expired segment at the oldest end which the same Clean
 	// did not remove; a following Clean removing it is the same finding.
 	ageExposed bool
+
+	// softAcct: a segment whose MessageCount / Position / lastWriteTime differs
+	// from its file is reported, but the case goes on so that the clean itself
+	// is judged against the files too (history unit).
+	softAcct bool
 }
 
 func c09Opts(tag string, maxSeg int64, lim c09Limits) Options {
@@ -332,7 +337,11 @@ func (e *c09Env) scan(stage string) ([]c09Seg, bool) {
 		if s.MessageCount() != st[i].Count || s.Position() != st[i].Bytes || (st[i].Count > 0 && s.lastWriteTime != st[i].LastTS) {
 			e.fail("C09:segment-accounting", fmt.Sprintf("%s: segment base %d reports count=%d bytes=%d lastWrite=%d, its file holds %v",
 				stage, s.BaseOffset, s.MessageCount(), s.Position(), s.lastWriteTime, st[i]), nil)
-			return st, false
+			if !e.softAcct {
+				return st, false
+			}
+			// history unit: go on and let the clean be judged on the files as well
+			break
 		}
 	}
 	return st, true
